@@ -213,6 +213,7 @@ func bedFilePool(n int) []bedRec {
 }
 
 func runC04(r *core.Run) {
+	defer everyLength(r)
 	racePass(r, "race-format-bed", "the bed codec: readers each on their own stream (whole and in 7-byte reads, every corpus file), Write on shared records into separate destinations, File on one shared path; every result is compared with what the same call returned when it ran alone")
 	firstCallClause(r, "bed.")
 	texts := enum.AllStrings("a\",# ", 2)
